@@ -496,6 +496,30 @@ func TestStaticDefaultsAsWritten(t *testing.T) {
 	}
 }
 
+// TestStaticCommandLineValues: keys configured on the command line (--app.config=key=value) are configured keys like
+// any other: a placeholder is replaced by the value as given, also when the value contains '=' itself.
+func TestStaticCommandLineValues(t *testing.T) {
+	kit.Rec.Rule(rule)
+	values := map[string]string{"c16a.dsn": "host=pg.local port=5432 dbname=orders", "c16a.token": "c2VjcmV0MQ==", "c16a.plain": "plain", "c16a.which": "c16a"}
+	var args []string
+	for _, k := range []string{"c16a.dsn", "c16a.token", "c16a.plain", "c16a.which"} {
+		args = append(args, "--app.config="+k+"="+values[k])
+	}
+	for _, c := range []struct{ tag, want string }{
+		{"${c16a.dsn}", values["c16a.dsn"]}, {"${c16a.dsn:none}", values["c16a.dsn"]}, {"Bearer ${c16a.token}!", "Bearer " + values["c16a.token"] + "!"},
+		{"${${c16a.which}.dsn:none}", values["c16a.dsn"]}, {"${c16a.plain}-${c16a.absent:k=v}", "plain-k=v"},
+	} {
+		obj := structWith(&kit.Decoys{}, reflect.TypeOf(""), "value", c.tag)
+		out := kit.RunApp(app.SetConfigLoader(loader.NewArgsLoader(args)), app.SetComponents(obj.Interface()))
+		got := obj.Elem().FieldByName("F").String()
+		if !out.OK() || got != c.want {
+			kit.DumpReplay("c16-command-line-values", map[string]any{"tag": c.tag, "args": args, "field": got, "want": c.want, "outcome": fmt.Sprint(out)})
+			t.Fatalf("C16: value:%q with the command line %v gives %q (%v); the configured values give %q", c.tag, args, got, out, c.want)
+		}
+		kit.Rec.Case("args "+c.tag, true, "command-line-values")
+	}
+}
+
 func TestRetryAfterSet(t *testing.T) {
 	kit.Rec.Rule(rule)
 	rapid.Check(t, func(t *rapid.T) {
